@@ -481,7 +481,11 @@ func cmdRun(args []string) int {
 	for _, l := range violLines {
 		fmt.Println(l)
 	}
-	writeEvidence(chk, tier, seed, reports, samples, funcs, allSrcs, nviol, len(knownLines), notes, time.Since(t0))
+	if only == "" && os.Getenv("VERIF_FIX") == "" && os.Getenv("VERIF_PARAMS") == "" {
+		writeEvidence(chk, tier, seed, reports, samples, funcs, allSrcs, nviol, len(knownLines), notes, time.Since(t0))
+	} else {
+		fmt.Println("(partial debugging run: evidence file not rewritten)")
+	}
 	if exitCode == 1 {
 		return 1
 	}
